@@ -103,7 +103,9 @@ func (dev *RoachDevice) samplePacket() error {
 	if err := dev.conn.SetReadDeadline(deadline); err != nil {
 		return err
 	}
-	_, _, err := dev.conn.ReadFromUDP(p)
+	if _, _, err := dev.conn.ReadFromUDP(p); err != nil {
+		return err // e.g. the device is not sending (yet): there is no packet to parse
+	}
 	header, _ := parsePacket(p)
 	dev.nextS = FrameIndex(header.Nsamp) + FrameIndex(header.Sampnum)
 	dev.nchan = int(header.Nchan)
@@ -119,7 +121,7 @@ func (dev *RoachDevice) samplePacket() error {
 		dev.unwrap[i] = NewPhaseUnwrapper(roachFractionBits, roachBitsToDrop, enable,
 			biaslevel, resetAfter, pulseSign, invertData)
 	}
-	return err
+	return nil
 }
 
 // readPackets watches for UDP data from the Roach and sends it on chan nextBlock.
